@@ -222,3 +222,58 @@ def parallel_map(fn, items, jobs=None, chunk=None):
     ctx = mp.get_context("fork")
     with ctx.Pool(jobs) as pool:
         return pool.map(fn, items, chunksize=chunk or max(1, len(items) // (jobs * 4)))
+
+
+def owner_region(repo, seeds):
+    """Call-graph closure of an ownership region.  `seeds` is a set of (class qual | None, function name).  A
+    function joins the region when it is private (leading underscore), lives in the class (or, for module-level
+    functions, the module) of a region member, and every call site of its name in the whole package lies inside a
+    region function: it is then reachable only through the owners and is part of their implementation.
+    Call sites are matched by name (attribute call x.name(...) or plain call name(...)), which over-approximates
+    the callers: a same-named call anywhere else keeps the helper out of the region."""
+    region = set(seeds)
+    # name -> enclosing defs of all call sites / references
+    refs = {}
+    for m in repo.modules.values():
+        for n in ast.walk(m.tree):
+            nm = None
+            if isinstance(n, ast.Attribute):
+                nm = n.attr
+            elif isinstance(n, ast.Name) and isinstance(n.ctx, ast.Load):
+                nm = n.id
+            if nm and nm.startswith("_") and not nm.startswith("__"):
+                refs.setdefault(nm, []).append((m, n))
+    enc_cache = {}
+
+    def enc(m, n):
+        k = (m.name, id(n))
+        if k not in enc_cache:
+            enc_cache[k] = enclosing_def(repo, m, n)
+        return enc_cache[k]
+    changed = True
+    while changed:
+        changed = False
+        classes = set(c for c, f in region if c)
+        mods = set()
+        for c, f in region:
+            if c and c in repo.classes:
+                mods.add(repo.classes[c].module.name)
+        cands = set()
+        for c in classes:
+            ci = repo.classes[c]
+            for nm in ci.order:
+                if nm.startswith("_") and not nm.startswith("__") and ci.own_func(nm) is not None:
+                    cands.add((c, nm))
+        for mn in mods:
+            m = repo.modules[mn]
+            for st in m.tree.body:
+                if isinstance(st, ast.FunctionDef) and st.name.startswith("_"):
+                    cands.add((None, st.name))
+        for cand in sorted(cands - region, key=str):
+            sites = refs.get(cand[1], [])
+            if not sites:
+                continue
+            if all(enc(m, n) in region or enc(m, n) == cand for m, n in sites):
+                region.add(cand)
+                changed = True
+    return region
